@@ -299,5 +299,10 @@ def validate_internal(scn, results, timeout=900, **kw):
             i = int(m.group(1)) - 1
             res[i] = {"accepted": m.group(2) == "accepted", "at": int(m.group(3)), "what": (m.group(4) or "")[:200]}
     if any(r is None for r in res):
-        raise tlc.TLCError("SchedTrace did not judge every trace\n" + "\n".join(out.splitlines()[-40:]))
+        # TLC stopped with an evaluation error on one of the recorded projections (e.g. a tiered time of a length that no
+        # state of (S) has - code and model differ in shape): every trace that was not judged counts as rejected = drift
+        if "Error:" not in out:
+            raise tlc.TLCError("SchedTrace did not judge every trace\n" + "\n".join(out.splitlines()[-40:]))
+        why = next((l for l in out.splitlines() if l.startswith("Error:")), "Error")[:160]
+        res = [r if r is not None else {"accepted": False, "at": 0, "what": "SchedTrace could not evaluate the recorded projection: " + why} for r in res]
     return res, {"states": tlc.stats(out)["distinct"], "generated": tlc.stats(out)["generated"], "secs": secs}
